@@ -130,7 +130,8 @@ theorem C04_point_step (cfg : Cfg) (now : Int) (coll : Option Offer) (file : Poi
     ∨ (∃ t s offer mf vm crl, file = .success t s ∧ ¬ s.consistent ∧ coll = some offer
         ∧ (offer.get ca.info.mft).mft = some mf
         ∧ validateCollected cfg now (offer.get ca.info.mft) mf = some (vm, crl)
-        ∧ out.2 = .attempt now ∧ out.1 = storedResult cfg now ca none) := by
+        ∧ out.2 = .attempt now ∧ out.1 = storedResult cfg now ca none
+        ∧ (∃ e ∈ vm.mft.entries, e.loads (offer.get ca.info.mft).files = false)) := by
   intro out
   have hkeep : (file.open now).1 = file.touch now := rfl
   cases coll with
@@ -202,7 +203,13 @@ theorem C04_point_step (cfg : Cfg) (now : Int) (coll : Option Offer) (file : Poi
                     subst h
                     obtain ⟨t, hfile⟩ := stored_eq_some hfs
                     rw [hfs] at hs' hn
-                    refine ⟨t, s, offer, mf, vm, crl, hfile, ?_, rfl, hm, hv, ?_, ?_⟩
+                    have hbad : ∃ e ∈ vm.mft.entries,
+                        e.loads (offer.get ca.info.mft).files = false := by
+                      have : ¬ (vm.mft.entries.all
+                          (fun e => e.loads (offer.get ca.info.mft).files) = true) := by
+                        rw [hall]; simp
+                      simpa [List.all_eq_true] using this
+                    refine ⟨t, s, offer, mf, vm, crl, hfile, ?_, rfl, hm, hv, ?_, ?_, hbad⟩
                     · intro hc
                       rw [collectedIsNewer_consistent hc] at hn
                       simp at hn
